@@ -104,7 +104,7 @@ def cases(tier, seed):
         ["kron", ["selfadj", 2, C16], ["selfadj", 2, C16]],
         ["blockdiag", [["selfadj", 2, C16], ["psd", 2, C16]], [1, 2]],
         ["sum", ["selfadj", 2, C16], ["psd", 2, C16]],
-        ["sum", ["selfadj", 2, F8], ["selfadj", 2, C16], ["psd", 2, F8]], ["sum", ["psd", 2, F8], ["psd", 2, C16], ["selfadj", 2, C16], ["selfadj", 2, F8]],
+        ["sum", ["selfadj", 2, F8], ["selfadj", 2, C16], ["selfadj", 2, F8]], ["sum", ["psd", 2, F8], ["psd", 2, C16], ["psd", 2, C16], ["psd", 2, F8]],
         ["product", ["scalar", 2, C16], ["selfadj", 2, C16]],
         ["sliced", ["selfadj", 3, C16], ["s", 0, 2, None], ["s", 0, 2, None]],
         ["sliced", ["selfadj", 3, C16], ["s", 0, 2, None], ["s", 1, 3, None]],
